@@ -370,6 +370,61 @@ func VerifC07_ScheduledAfterQueuedRun() {
 	rt.Reach("schedafterqueue-end")
 }
 
+// a repeating task that already ran through the queue comes up again at its
+// repeat time while another task holds the queue slot: it is queued, not
+// started directly (the repeat interval has a minimum of one minute: this
+// harness runs 80 s natively)
+func VerifC07_RepeatingTaskWaitsForSlot() {
+	rt.SchedYieldOnly(true)
+	rt.NativeTimeout(100 * time.Second)
+	m := c07Reset()
+	aRuns := 0
+	bRunning := false
+	gate := make(chan struct{})
+	a := m.NewTask("a", func(context.Context, *Task) error {
+		aRuns++
+		rt.Assert(!bRunning, "repeatslot/not-started-while-the-slot-is-taken")
+		// (a task that returns at once may keep the queue's slot busy for up
+		// to the execution-wait limit: this one takes a moment)
+		time.Sleep(time.Second)
+		return nil
+	}).MaxDelay(10 * time.Minute)
+	b := m.NewTask("b", func(context.Context, *Task) error {
+		bRunning = true
+		<-gate
+		bRunning = false
+		return nil
+	}).MaxDelay(0)
+	go func() {
+		for {
+			taskTimeslot <- struct{}{}
+		}
+	}()
+	go taskQueueHandler()
+	go taskScheduleHandler()
+	a.Repeat(time.Minute)
+	// first run through a queue
+	switch rt.Choice("firstrun", 3) {
+	case 0:
+		a.Queue()
+	case 1:
+		a.QueuePrioritized()
+	case 2:
+		a.StartASAP()
+	}
+	time.Sleep(50 * time.Second)
+	rt.Assert(aRuns == 1, "repeatslot/first-run-done")
+	b.Queue()
+	time.Sleep(25 * time.Second) // the repeat time (60 s after the first run) has come, b still runs
+	rt.Assert(bRunning, "repeatslot/slot-taken")
+	rt.Assert(aRuns == 1, "repeatslot/repeated-task-waits-for-the-running-one")
+	close(gate)
+	time.Sleep(5 * time.Second)
+	rt.Assert(aRuns == 2, "repeatslot/repeated-task-runs-afterwards")
+	a.Cancel()
+	rt.Reach("repeatslot-end")
+}
+
 // ---- O4: a scheduled task does not start early, and does start ----
 
 func VerifC07_NotEarly() {
